@@ -86,13 +86,12 @@ theorem constraint_posts_exactly_once (env : Env) (h : FromCode env) (db : Db) (
   unfold commitList
   rw [postsTo_append, postsTo_append]
   have h1 : postsTo σ reg [Fired.commitActions (specTx env db prevCtx tx).ctx.commitActions] = [] := rfl
-  have h2 : postsTo σ reg (if (tx.mode == Mode.update) = true then List.map Fired.txComplete (List.range env.txListeners) else []) = [] := by
-    split
-    · generalize List.range env.txListeners = l
-      induction l with
-      | nil => rfl
-      | cons a t ih => simpa [postsTo] using ih
-    · rfl
+  have h2 : postsTo σ reg (if true = true then List.map Fired.txComplete (List.range env.txListeners) else []) = [] := by
+    simp only [if_true]
+    generalize List.range env.txListeners = l
+    induction l with
+    | nil => rfl
+    | cons a t ih => simpa [postsTo] using ih
   rw [h1, h2]
   simp only [List.nil_append, List.append_nil]
   generalize txFlows env db prevCtx tx = flows
@@ -303,22 +302,13 @@ theorem rejected_op_tx_fails (env : Env) (h : FromCode env) (db : Db) (ctx : Ctx
 /-- **C08, commit actions and transaction-complete listeners run once per committed transaction** —
     the full statement: one goroutine runs the commit actions of the transaction's context (each as
     often as it is registered on the context, in order), and every tx-complete listener runs exactly
-    once, whether the transaction was run by Db.Update or by Db.Batch. -/
-def commit_actions_once_fullStatement : Prop :=
-  ∀ (env : Env), FromCode env → ∀ (db : Db) (prevCtx : Ctx) (tx : TxSpec), tx.wellBehaved →
-    (runTx env db prevCtx tx).res = .ok →
-    commitActionRuns (runTx env db prevCtx tx).fired = [(runTx env db prevCtx tx).ctx.commitActions] ∧
-    txCompleteRuns (runTx env db prevCtx tx).fired = List.range env.txListeners
-
-/-- What holds of the code: the commit-action half for Update and Batch; the tx-complete half for
-    Db.Update only.  **Db.Batch never runs the tx-complete listeners** (boltz/db.go: Batch does not
-    register them with tx.OnCommit) — missing for the full statement; see the counter-example below
-    and /verif/fixes/proposed/C08-batch-tx-complete.diff. -/
-theorem commit_actions_once_partial (env : Env) (h : FromCode env) (db : Db) (prevCtx : Ctx) (tx : TxSpec)
+    once, whether the transaction was run by Db.Update or by Db.Batch.  (Before cb70ebf Db.Batch
+    registered no tx-complete listeners and this statement was false; `batch_runs_tx_complete` below is
+    the former counter-example, now a witness.) -/
+theorem commit_actions_once (env : Env) (h : FromCode env) (db : Db) (prevCtx : Ctx) (tx : TxSpec)
     (hw : tx.wellBehaved) (hok : (runTx env db prevCtx tx).res = .ok) :
     commitActionRuns (runTx env db prevCtx tx).fired = [(runTx env db prevCtx tx).ctx.commitActions] ∧
-    txCompleteRuns (runTx env db prevCtx tx).fired =
-      (if tx.mode = .update then List.range env.txListeners else []) := by
+    txCompleteRuns (runTx env db prevCtx tx).fired = List.range env.txListeners := by
   have ha := runTx_agree env h.expected db prevCtx tx hw
   rw [ha.fired_ok hok, ha.ctx]
   unfold commitList
@@ -339,40 +329,19 @@ theorem commit_actions_once_partial (env : Env) (h : FromCode env) (db : Db) (pr
     | nil => exact ⟨rfl, rfl⟩
     | cons a t ih => simp [commitActionRuns, txCompleteRuns, ih]
   rw [(hmid _).1, (hmid _).2]
-  cases hm : tx.mode with
-  | update => simp [commitActionRuns, txCompleteRuns, (htail _).1, (htail _).2]
-  | batch => simp [commitActionRuns, txCompleteRuns]
+  simp [commitActionRuns, txCompleteRuns, (htail _).1, (htail _).2]
 
-/-- for Db.Update the full statement holds -/
-theorem commit_actions_once_update (env : Env) (h : FromCode env) (db : Db) (prevCtx : Ctx) (tx : TxSpec)
-    (hw : tx.wellBehaved) (hm : tx.mode = .update) (hok : (runTx env db prevCtx tx).res = .ok) :
-    commitActionRuns (runTx env db prevCtx tx).fired = [(runTx env db prevCtx tx).ctx.commitActions] ∧
-    txCompleteRuns (runTx env db prevCtx tx).fired = List.range env.txListeners := by
-  have := commit_actions_once_partial env h db prevCtx tx hw hok
-  simpa [hm] using this
-
-/-- the witness: one tx-complete listener, a Batch transaction that registers a commit action and
-    deletes an entity — it commits, the commit action runs, the tx-complete listener does not -/
+/-- the former counter-example: one tx-complete listener, a Batch transaction that registers a commit
+    action and deletes an entity — it commits, the commit action runs once, and so does the listener -/
 def batchWitnessEnv : Env := { regsP := [], regsC := [], txListeners := 1, t := Generated.crudReturns }
 def batchWitnessDb : Db := [("p1", { f := ⟨"n1", [], none⟩, child := none })]
 def batchWitnessTx : TxSpec := { mode := .batch, reuseCtx := false, body := [.addCommit 1, .op (.delete .P "p1") .none false] }
 
-theorem batch_runs_no_tx_complete :
+theorem batch_runs_tx_complete :
     (runTx batchWitnessEnv batchWitnessDb Ctx.empty batchWitnessTx).res = .ok ∧
     commitActionRuns (runTx batchWitnessEnv batchWitnessDb Ctx.empty batchWitnessTx).fired = [[1]] ∧
-    txCompleteRuns (runTx batchWitnessEnv batchWitnessDb Ctx.empty batchWitnessTx).fired = [] := by
+    txCompleteRuns (runTx batchWitnessEnv batchWitnessDb Ctx.empty batchWitnessTx).fired = [0] := by
   decide
-
-/-- the full statement is false of the code as it is -/
-theorem commit_actions_once_fullStatement_fails : ¬ commit_actions_once_fullStatement := by
-  intro hfull
-  have hw : batchWitnessTx.wellBehaved := by
-    intro s hs
-    simp [batchWitnessTx] at hs
-    rcases hs with rfl | rfl <;> rfl
-  have := (hfull batchWitnessEnv rfl batchWitnessDb Ctx.empty batchWitnessTx hw batch_runs_no_tx_complete.1).2
-  rw [batch_runs_no_tx_complete.2.2] at this
-  exact absurd this (by decide)
 
 -- non-vacuity: a committed transaction deleting an entity with child data (a parent and a child flow),
 -- a listener registered for [deleted, deletedAsync] on the parent store
